@@ -66,3 +66,44 @@ def replay(args):
                     return {"route": route, "step": k, "reads": seq[:k + 1],
                             "what": "the decoder was %s, the specification says %s" % ("re-opened" if reopened else "not re-opened", "re-open" if ev["reopen"] else "keep reading")}
     return None
+
+
+def check_video_landmarks():
+    """import_video: frame k of the lazy list is frame k of the decoder AND carries the landmark files named <stem>_<k>.* (and
+    only those), whatever order the frames are read in.  Returns a disagreement or None."""
+    import shutil
+    import tempfile
+    from pathlib import Path
+
+    import menpo.io as mio
+    import menpo.io.input.video as mv
+    from menpo.shape import PointCloud
+
+    n_frames = 4
+    root = tempfile.mkdtemp(prefix="menpo-video-")
+    try:
+        vid = Path(root) / "clip.avi"
+        vid.write_bytes(b"not a real video")
+        for k in (0, 2, 3):
+            mio.export_landmark_file(PointCloud(np.array([[float(k), 1.0], [2.0, 3.0], [0.5, float(k)]])), Path(root) / ("clip_%d.pts" % k), overwrite=True)
+        mio.export_landmark_file(PointCloud(np.array([[9.0, 9.0], [8.0, 8.0], [7.0, 7.0]])), Path(root) / "clip.pts", overwrite=True)   # not a frame's file
+        infos = {"duration": n_frames / FPS, "width": W, "height": H, "n_frames": n_frames, "fps": FPS}
+        _FakePipe.n_frames = n_frames
+        with mock.patch.object(mv.sp, "Popen", _FakePipe), mock.patch.object(mv, "video_infos_ffprobe", lambda p: dict(infos)):
+            ll = mio.import_video(vid, normalize=False)
+            if len(ll) != n_frames:
+                return {"what": "import_video gives a lazy list of length %d for a %d-frame video" % (len(ll), n_frames)}
+            for k in (2, 0, 3, 1, 2):
+                fr = ll[k]
+                got = int(fr.pixels[0, 0, 0])
+                if got != k:
+                    return {"what": "element %d of the imported video is frame %d" % (k, got)}
+                groups = list(fr.landmarks.keys()) if fr.has_landmarks else []
+                want = ["PTS"] if k in (0, 2, 3) else []
+                if groups != want:
+                    return {"what": "frame %d carries landmark groups %r, expected %r" % (k, groups, want)}
+                if want and (fr.landmarks["PTS"].points[0, 0] != float(k) or fr.landmarks["PTS"].points[2, 1] != float(k)):
+                    return {"what": "frame %d carries the landmarks of frame %g" % (k, fr.landmarks["PTS"].points[0, 0])}
+    finally:
+        shutil.rmtree(root, ignore_errors=True)
+    return None
